@@ -303,6 +303,20 @@ impl<'a, G: AffineRepr> BulletproofGensShare<'a, G> {
     }
 }
 
+/// Verification-only accessors (guarded, add-only).
+#[cfg(feature = "verif-hooks")]
+impl<'a, G: AffineRepr> BulletproofGensShare<'a, G> {
+    /// This party's first `n` G generators.
+    pub fn verif_G(&self, n: usize) -> Vec<G> {
+        self.G(n).cloned().collect()
+    }
+
+    /// This party's first `n` H generators.
+    pub fn verif_H(&self, n: usize) -> Vec<G> {
+        self.H(n).cloned().collect()
+    }
+}
+
 #[cfg(test)]
 mod tests {
     use super::*;
